@@ -159,6 +159,63 @@ def setter_constant(tree, path):
     return found
 
 
+def setter_paths(tree, path):
+    """every execution path of the two BaseMagnet setters as a sequence of tokens
+         "raise" (a call: validation, warning, arithmetic helper - anything that can raise),
+         "own" / "other" (write of self._<own> / self._<other attribute>)
+    in evaluation order (the calls of an assignment's right-hand side come BEFORE its write).  Fails closed on any
+    statement kind it does not know."""
+    cls = next((n for n in ast.walk(tree) if isinstance(n, ast.ClassDef) and n.name == "BaseMagnet"), None)
+    if cls is None:
+        raise Untranslatable(f"class BaseMagnet not found in {path}")
+    out = {}
+
+    def calls(node):
+        return ["raise" for n in ast.walk(node) if isinstance(n, ast.Call)]
+
+    def run(stmts, own, other):
+        """-> list of (tokens, returned?)"""
+        paths = [([], False)]
+        for st in stmts:
+            new = []
+            for toks, done in paths:
+                if done:
+                    new.append((toks, True))
+                    continue
+                if isinstance(st, ast.Expr) and isinstance(st.value, ast.Constant) and isinstance(st.value.value, str):
+                    new.append((toks, False))
+                elif isinstance(st, ast.Expr):
+                    new.append((toks + calls(st.value), False))
+                elif isinstance(st, ast.Assign) and len(st.targets) == 1 and isinstance(st.targets[0], ast.Attribute) \
+                        and isinstance(st.targets[0].value, ast.Name) and st.targets[0].value.id == "self" \
+                        and st.targets[0].attr in (own, other):
+                    new.append((toks + calls(st.value) + ["own" if st.targets[0].attr == own else "other"], False))
+                elif isinstance(st, ast.Assign) and len(st.targets) == 1 and isinstance(st.targets[0], ast.Name):
+                    new.append((toks + calls(st.value), False))          # a local variable
+                elif isinstance(st, ast.Return):
+                    new.append((toks + (calls(st.value) if st.value is not None else []), True))
+                elif isinstance(st, ast.If):
+                    t = toks + calls(st.test)
+                    for sub, d in run(st.body, own, other):
+                        new.append((t + sub, d))
+                    for sub, d in (run(st.orelse, own, other) if st.orelse else [([], False)]):
+                        new.append((t + sub, d))
+                else:
+                    raise Untranslatable(f"setter statement of unknown kind at line {st.lineno}: {ast.unparse(st)[:60]}")
+            paths = new
+        return paths
+
+    for fn in cls.body:
+        if isinstance(fn, ast.FunctionDef) and fn.name in ("magnetization", "polarization") \
+                and any(isinstance(d, ast.Attribute) and d.attr == "setter" for d in fn.decorator_list):
+            own = "_" + fn.name
+            other = "_polarization" if fn.name == "magnetization" else "_magnetization"
+            out[fn.name] = [toks for toks, _ in run(fn.body, own, other)]
+    if set(out) != {"magnetization", "polarization"}:
+        raise Untranslatable(f"BaseMagnet setters not found: {sorted(out)}")
+    return out
+
+
 def qlit(hexstr):
     fr = Fraction(float.fromhex(hexstr))
     n, d = fr.numerator, fr.denominator
@@ -208,6 +265,7 @@ def generate(repo):
                          "factors": [(job(mod, src, al), sign) for src, sign, al in consts]})
         if rel.endswith("class_BaseExcitations.py"):
             st = setter_constant(tree, rel)
+            spaths = setter_paths(tree, rel)
             setters = {k: (f"{rel}:{ln} {k}.setter constant {src}", job(mod, src)) for k, (ln, src) in st.items()}
     if exported is None:
         raise Untranslatable("magpylib/__init__.py does not import mu_0")
@@ -263,6 +321,10 @@ def generate(repo):
         site, j = setters[k]
         out.append(f"(* {site} = {val[j]!r} *)\nDefinition mu0_setter_{k} : Q := {qlit(hexes[j])}.\n"
                    f"Definition mu0_setter_{k}_site : string := {cstr(site)}.\n")
+    for k in ("magnetization", "polarization"):
+        body = ";\n".join("  [" + "; ".join(cstr(t) for t in toks) + "]" for toks in spaths[k])
+        out.append(f"(* every execution path of the {k} setter: calls (\"raise\") and writes of the own / other attribute, in order *)\n"
+                   f"Definition setter_paths_{k} : list (list string) := [\n{body}].\n")
     out.append(table("mu0_name_sites", names, "every `import mu_0 [as X]`, value of the module attribute"))
     out.append(table("mu0_use_sites", uses, "every bare use of such a name as a factor / divisor"))
     out.append(table("mu0_literal_sites", lit, "constant expressions within 1e-3 of mu_0 that do not mention the name"))
